@@ -803,7 +803,7 @@ pub axiom fn axiom_set_iter_ascending<'a>(rem: Seq<&'a StateID>)
     ensures forall|i: int, j: int| 0 <= i < j < rem.len() ==> (#[trigger] rem[i]).0 < (#[trigger] rem[j]).0;
 /// BTreeMap<StateID, _> iterates in ascending key order (same)
 pub axiom fn axiom_map_iter_ascending<'a, V>(rem: Seq<(&'a StateID, &'a V)>)
-    requires vstd::std_specs::btree::increasing_seq(rem.map_values(|e: (&'a StateID, &'a V)| e.0))
+    requires vstd::std_specs::btree::increasing_seq(rem.map_values(|e: (&'a StateID, &'a V)| *e.0))
     ensures forall|i: int, j: int| 0 <= i < j < rem.len() ==> (#[trigger] rem[i]).0.0 < (#[trigger] rem[j]).0.0;
 /// Clone of a BTreeMap<CharClassID, Vec<StateID>> has the same keys with equal target lists (std Clone, rule E4)
 pub axiom fn axiom_cloned_ccmap(a: BTreeMap<CharClassID, Vec<StateID>>, b: BTreeMap<CharClassID, Vec<StateID>>)
@@ -978,3 +978,185 @@ pub open spec fn tv_bounded(tv: Seq<TvEntry>, n: int) -> bool {
 pub fn verif_keys(m: &BTreeMap<CharClassID, Vec<StateID>>) -> (r: Vec<CharClassID>)
     ensures r@.no_duplicates(), forall|cc: CharClassID| #[trigger] r@.contains(cc) <==> m@.contains_key(cc)
 { m.keys().cloned().collect() }
+
+// ---------------------------------------------------------------- update_transitions: the merged, renumbered entries are written into the new automaton
+pub type CcRem<'a> = Seq<(&'a CharClassID, &'a Vec<StateID>)>;
+pub open spec fn ent_upto(tv: Seq<TvEntry>, k: int, g: int, cc: CharClassID, h: int) -> bool {
+    exists|i: int| 0 <= i < k && i < tv.len() && (#[trigger] tv[i]).0.0 == g && tv_edge(tv, i, cc, StateID(h as u32))
+}
+pub open spec fn seen_t(ts: Seq<StateID>, m: int, t: StateID) -> bool { exists|q: int| 0 <= q < m && q < ts.len() && #[trigger] ts[q] == t }
+/// edges written so far: all of the first k entries, of entry k the first j classes and of class j the first m targets
+pub open spec fn upd_inv<'a>(tv: Seq<TvEntry>, k: int, rem: CcRem<'a>, j: int, m: int, g: int, cc: CharClassID, h: int) -> bool {
+    ent_upto(tv, k, g, cc, h) || (0 <= k < tv.len() && g == tv[k].0.0 && (rem_edge(rem, j, cc, StateID(h as u32))
+        || (0 <= j < rem.len() && cc == *rem[j].0 && seen_t(rem[j].1@, m, StateID(h as u32)))))
+}
+#[verifier::opaque]
+pub open spec fn upd_ok<'a>(sts: Seq<StateData>, np: int, tv: Seq<TvEntry>, k: int, rem: CcRem<'a>, j: int, m: int) -> bool {
+    sts.len() == np && forall|g: int, cc: CharClassID, h: int| 0 <= g < np && 0 <= h <= u32::MAX ==>
+        (#[trigger] sts[g].transitions@.contains((cc, StateSetID(h as u32))) <==> upd_inv(tv, k, rem, j, m, g, cc, h))
+}
+pub proof fn lemma_upd_init<'a>(sts: Seq<StateData>, np: int, tv: Seq<TvEntry>, rem: CcRem<'a>)
+    requires sts.len() == np, forall|g: int| 0 <= g < np ==> (#[trigger] sts[g]).transitions@.len() == 0
+    ensures upd_ok(sts, np, tv, 0, rem, 0, 0)
+{
+    reveal(upd_ok);
+    assert forall|g: int, cc: CharClassID, h: int| 0 <= g < np && 0 <= h <= u32::MAX implies
+        (#[trigger] sts[g].transitions@.contains((cc, StateSetID(h as u32))) <==> upd_inv(tv, 0, rem, 0, 0, g, cc, h)) by { assert(sts[g].transitions@.len() == 0); }
+}
+pub proof fn lemma_upd_push<'a>(sts0: Seq<StateData>, sts1: Seq<StateData>, np: int, tv: Seq<TvEntry>, k: int, rem: CcRem<'a>, j: int, m: int)
+    requires
+        upd_ok(sts0, np, tv, k, rem, j, m), 0 <= k < tv.len(), 0 <= j < rem.len(), 0 <= m < rem[j].1@.len(), tv[k].0.0 < np, sts1.len() == np,
+        forall|g: int| 0 <= g < np && g != tv[k].0.0 ==> #[trigger] sts1[g] == sts0[g],
+        forall|y: (CharClassID, StateSetID)| #[trigger] sts1[tv[k].0.0 as int].transitions@.contains(y)
+            <==> (y == (*rem[j].0, StateSetID(rem[j].1@[m].0)) || sts0[tv[k].0.0 as int].transitions@.contains(y)),
+    ensures upd_ok(sts1, np, tv, k, rem, j, m + 1)
+{
+    reveal(upd_ok);
+    let sid = tv[k].0.0 as int;
+    let ts = rem[j].1@;
+    assert forall|g: int, cc: CharClassID, h: int| 0 <= g < np && 0 <= h <= u32::MAX implies
+        (#[trigger] sts1[g].transitions@.contains((cc, StateSetID(h as u32))) <==> upd_inv(tv, k, rem, j, m + 1, g, cc, h)) by {
+        let t = StateID(h as u32);
+        assert(sts0[g].transitions@.contains((cc, StateSetID(h as u32))) <==> upd_inv(tv, k, rem, j, m, g, cc, h));
+        if seen_t(ts, m + 1, t) { let q = choose|q: int| 0 <= q < m + 1 && q < ts.len() && #[trigger] ts[q] == t; if q < m { assert(seen_t(ts, m, t)); } else { assert(ts[m] == t); } }
+        if seen_t(ts, m, t) { let q = choose|q: int| 0 <= q < m && q < ts.len() && #[trigger] ts[q] == t; assert(0 <= q < m + 1); }
+        if ts[m] == t { assert(seen_t(ts, m + 1, t)); }
+        if g == sid {
+            assert((cc, StateSetID(h as u32)) == (*rem[j].0, StateSetID(ts[m].0)) <==> (cc == *rem[j].0 && ts[m] == t));
+        }
+    }
+}
+pub proof fn lemma_upd_next_class<'a>(sts: Seq<StateData>, np: int, tv: Seq<TvEntry>, k: int, rem: CcRem<'a>, j: int)
+    requires upd_ok(sts, np, tv, k, rem, j, rem[j].1@.len() as int), 0 <= j < rem.len()
+    ensures upd_ok(sts, np, tv, k, rem, j + 1, 0)
+{
+    reveal(upd_ok);
+    let ts = rem[j].1@;
+    assert forall|g: int, cc: CharClassID, h: int| 0 <= g < np && 0 <= h <= u32::MAX implies
+        (#[trigger] sts[g].transitions@.contains((cc, StateSetID(h as u32))) <==> upd_inv(tv, k, rem, j + 1, 0, g, cc, h)) by {
+        let t = StateID(h as u32);
+        assert(sts[g].transitions@.contains((cc, StateSetID(h as u32))) <==> upd_inv(tv, k, rem, j, ts.len() as int, g, cc, h));
+        if rem_edge(rem, j + 1, cc, t) {
+            let i = choose|i: int| 0 <= i < j + 1 && i < rem.len() && *(#[trigger] rem[i]).0 == cc && rem[i].1@.contains(t);
+            if i < j { assert(rem_edge(rem, j, cc, t)); } else { let q = choose|q: int| 0 <= q < ts.len() && ts[q] == t; assert(seen_t(ts, ts.len() as int, t)); }
+        }
+        if rem_edge(rem, j, cc, t) { let i = choose|i: int| 0 <= i < j && i < rem.len() && *(#[trigger] rem[i]).0 == cc && rem[i].1@.contains(t); assert(0 <= i < j + 1); }
+        if cc == *rem[j].0 && seen_t(ts, ts.len() as int, t) {
+            let q = choose|q: int| 0 <= q < ts.len() && q < ts.len() && #[trigger] ts[q] == t; assert(ts.contains(t)); assert(rem_edge(rem, j + 1, cc, t));
+        }
+    }
+}
+pub proof fn lemma_upd_next_entry<'a, 'b>(sts: Seq<StateData>, np: int, tv: Seq<TvEntry>, k: int, rem: CcRem<'a>, rem2: CcRem<'b>)
+    requires upd_ok(sts, np, tv, k, rem, rem.len() as int, 0), 0 <= k < tv.len(), btree_rem_ok(tv[k].1@, rem)
+    ensures upd_ok(sts, np, tv, k + 1, rem2, 0, 0)
+{
+    reveal(upd_ok);
+    assert forall|g: int, cc: CharClassID, h: int| 0 <= g < np && 0 <= h <= u32::MAX implies
+        (#[trigger] sts[g].transitions@.contains((cc, StateSetID(h as u32))) <==> upd_inv(tv, k + 1, rem2, 0, 0, g, cc, h)) by {
+        let t = StateID(h as u32);
+        assert(sts[g].transitions@.contains((cc, StateSetID(h as u32))) <==> upd_inv(tv, k, rem, rem.len() as int, 0, g, cc, h));
+        if ent_upto(tv, k + 1, g, cc, h) {
+            let i = choose|i: int| 0 <= i < k + 1 && i < tv.len() && (#[trigger] tv[i]).0.0 == g && tv_edge(tv, i, cc, t);
+            if i < k { assert(ent_upto(tv, k, g, cc, h)); } else {
+                let x = choose|x: int| 0 <= x < rem.len() && *(#[trigger] rem[x]).0 == cc;
+                assert(tv[k].1@[cc] == *rem[x].1);
+                assert(rem_edge(rem, rem.len() as int, cc, t));
+            }
+        }
+        if ent_upto(tv, k, g, cc, h) { let i = choose|i: int| 0 <= i < k && i < tv.len() && (#[trigger] tv[i]).0.0 == g && tv_edge(tv, i, cc, t); assert(0 <= i < k + 1); }
+        if g == tv[k].0.0 && rem_edge(rem, rem.len() as int, cc, t) {
+            let i = choose|i: int| 0 <= i < rem.len() && i < rem.len() && *(#[trigger] rem[i]).0 == cc && rem[i].1@.contains(t);
+            assert(tv[k].1@.contains_key(cc) && tv[k].1@[cc] == *rem[i].1);
+            assert(tv_edge(tv, k, cc, t));
+            assert(tv[k].0.0 == g);
+        }
+    }
+}
+/// the written automaton has exactly the quotient's edges
+pub proof fn lemma_update_final<'a>(tm: TMapV, e0: EdgeF, p: PartV, tv1: Seq<TvEntry>, tv2: Seq<TvEntry>, ab: AbV, n: int, q: CompiledDfa, rem: CcRem<'a>)
+    requires
+        part_ok(p, n), groups_disjoint(p), tm_keys(tm, n), p.len() <= u32::MAX,
+        forall|s: StateID, cc: CharClassID, t: StateID| #[trigger] e0(s, cc, t) <==> tm_edge(tm, s, cc, t),
+        merged_inv(e0, p, tv1, ab, n), all_done(p, ab),
+        tv2.len() == tv1.len(), forall|i: int| 0 <= i < tv1.len() ==> entry_renum(p, #[trigger] tv1[i], tv2[i]),
+        upd_ok(q.states@, p.len() as int, tv2, tv2.len() as int, rem, 0, 0),
+    ensures q_trans_ok(tm, p, q)
+{
+    reveal(upd_ok);
+    reveal(groups_disjoint);
+    assert forall|g: int, cc: CharClassID, h: int| 0 <= g < p.len() && 0 <= h <= u32::MAX implies
+        (#[trigger] q.states@[g].transitions@.contains((cc, StateSetID(h as u32))) <==> exists|x: StateID| #[trigger] p[g].contains(x) && sig_tm(tm, p, x, cc, h)) by {
+        let hs = StateID(h as u32);
+        assert(q.states@[g].transitions@.contains((cc, StateSetID(h as u32))) <==> upd_inv(tv2, tv2.len() as int, rem, 0, 0, g, cc, h));
+        assert(upd_inv(tv2, tv2.len() as int, rem, 0, 0, g, cc, h) <==> ent_upto(tv2, tv2.len() as int, g, cc, h));
+        if ent_upto(tv2, tv2.len() as int, g, cc, h) {
+            let i = choose|i: int| 0 <= i < tv2.len() && i < tv2.len() && (#[trigger] tv2[i]).0.0 == g && tv_edge(tv2, i, cc, hs);
+            assert(entry_renum(p, tv1[i], tv2[i]));
+            let a = tv1[i].1@[cc]@; let b = tv2[i].1@[cc]@;
+            assert(tv1[i].1@.contains_key(cc));
+            assert(vec_renum(p, a, b));
+            let qq = choose|qq: int| 0 <= qq < b.len() && b[qq] == hs;
+            let t = a[qq];
+            assert(p[b[qq].0 as int].contains(t));
+            assert(a.contains(t));
+            assert(tv_edge(tv1, i, cc, t));
+            let r = tv1[i].0;
+            assert(p[g].contains(r));
+            assert(own_or_absorbed(e0, ab, r, cc, t));
+            assert(StateID(t.0 as int as u32) == t);
+            assert(in_grp(p, h, t.0 as int));
+            if e0(r, cc, t) {
+                assert(tm_edge(tm, r, cc, t)); assert(sig_tm(tm, p, r, cc, h));
+            } else {
+                let x = choose|x: StateID| #[trigger] ab.contains_key(x) && ab[x] == r && e0(x, cc, t);
+                assert(absorbed_ok(p, x, r));
+                let g2 = choose|g2: int| #[trigger] grp_min(p, g2, r) && p[g2].contains(x) && r != x;
+                assert(p[g2].contains(r) && p[g].contains(r));
+                assert(tm_edge(tm, x, cc, t)); assert(sig_tm(tm, p, x, cc, h));
+                assert(p[g].contains(x));
+            }
+        }
+        if exists|x: StateID| #[trigger] p[g].contains(x) && sig_tm(tm, p, x, cc, h) {
+            let x = choose|x: StateID| #[trigger] p[g].contains(x) && sig_tm(tm, p, x, cc, h);
+            let t = choose|t: StateID| #[trigger] tm_edge(tm, x, cc, t) && in_grp(p, h, t.0 as int);
+            assert(StateID(t.0 as int as u32) == t);
+            assert(p[h].contains(t));
+            assert(grp_done(p, ab, g));
+            let r = choose|r: StateID| #[trigger] grp_min(p, g, r) && !ab.contains_key(r) && forall|y: StateID| #[trigger] p[g].contains(y) && y != r ==> ab.contains_key(y) && ab[y] == r;
+            assert(r.0 < n);
+            assert(tv_has(tv1, r));
+            let i = choose|i: int| #[trigger] tv_pos(tv1, r, i);
+            assert(e0(x, cc, t));
+            assert(own_or_absorbed(e0, ab, r, cc, t)) by { if x != r { assert(ab.contains_key(x) && ab[x] == r); } }
+            assert(tv_edge(tv1, i, cc, t));
+            assert(entry_renum(p, tv1[i], tv2[i]));
+            let a = tv1[i].1@[cc]@; let b = tv2[i].1@[cc]@;
+            assert(vec_renum(p, a, b));
+            let qq = choose|qq: int| 0 <= qq < a.len() && a[qq] == t;
+            assert(p[b[qq].0 as int].contains(t));
+            assert(b[qq].0 as int == h);
+            assert(b[qq] == hs);
+            assert(b.contains(hs));
+            assert(p[tv2[i].0.0 as int].contains(r) && p[g].contains(r));
+            assert(tv2[i].0.0 == g);
+            assert(tv_edge(tv2, i, cc, hs));
+            assert(ent_upto(tv2, tv2.len() as int, g, cc, h));
+        }
+    }
+}
+pub open spec fn ccmap_same(a: Map<CharClassID, Vec<StateID>>, b: Map<CharClassID, Vec<StateID>>) -> bool {
+    (forall|cc: CharClassID| #[trigger] a.contains_key(cc) <==> b.contains_key(cc)) && (forall|cc: CharClassID| #[trigger] b.contains_key(cc) ==> a[cc]@ == b[cc]@)
+}
+pub proof fn lemma_part_n_unique(p: PartV, n: int, n1: int)
+    requires part_ok(p, n), part_ok(p, n1), 0 <= n, 0 <= n1
+    ensures n == n1
+{
+    if n < n1 { assert(has_grp(p, n)); let g = choose|g: int| #[trigger] in_grp(p, g, n); assert(p[g].contains(StateID(n as u32))); }
+    if n1 < n { assert(has_grp(p, n1)); let g = choose|g: int| #[trigger] in_grp(p, g, n1); assert(p[g].contains(StateID(n1 as u32))); }
+}
+/// the vector copy of the transition map: ascending keys, one entry per key, equal per-class target lists
+pub open spec fn tv_of_map(tm: TMapV, tv: Seq<TvEntry>) -> bool {
+    &&& tv_sorted(tv)
+    &&& forall|i: int| 0 <= i < tv.len() ==> tm.contains_key((#[trigger] tv[i]).0) && ccmap_same(tv[i].1@, tm[tv[i].0]@)
+    &&& forall|s: StateID| #[trigger] tm.contains_key(s) ==> tv_has(tv, s)
+}
